@@ -42,6 +42,7 @@ func checkC04(c *Ctx) {
 			return
 		}
 	}
+	c04R6(c)
 	x.verifyLeaf()
 	x.verifyParent()
 	x.names()
@@ -807,5 +808,75 @@ func (x *c04ctx) issuance() {
 			}
 			c.Check(okv, "C04.R5", FuncName(f)+"#parent-type", P.InstrPos(cs), "issue reached only with the right parent type", spec.fn+" issues without requiring the right parent type (the chain would not verify)")
 		}
+	}
+}
+
+// c04R6: "signed by" is computed, every time, over these bytes. VerifyParent trusts keys.VerifySignature for
+// the one cryptographic clause of the chain. Its answer is true only on a path where ed25519.Verify was
+// called with this call's key, this call's data and this call's signature and returned true: no answer
+// comes from a table of earlier verifications (a cache keyed by key and signature would accept any other
+// byte string that carries a signature seen before).
+func c04R6(c *Ctx) {
+	P := c.P
+	const rule = "C04.R6"
+	c.Rule(rule, "the signature test is computed every time over these bytes: keys.VerifySignature returns true only on a path where ed25519.Verify, applied to this call's key, data and signature, returned true (no remembered verdicts) (E1 decision table)")
+	fn := P.Func("keys", "VerifySignature")
+	if fn == nil || len(fn.Params) != 3 {
+		c.Undecided(rule, "keys.VerifySignature", "function not found")
+		return
+	}
+	name := FuncName(fn)
+	c.Analysed(name)
+	fs := newFailSet()
+	trues := 0
+	ok := walkAll(c, rule, fn, func(p *Path) {
+		r := p.Returns()
+		if r == nil || len(r.Results) != 1 {
+			return
+		}
+		last := len(p.Blocks) - 1
+		if v, isC := pathBool(p, r.Results[0], last); isC && !v {
+			return
+		}
+		trues++
+		verified := false
+		p.throughCalls = true
+		rv := p.Resolve(r.Results[0], last)
+		p.throughCalls = false
+		for _, pc := range callsOnPath(p) {
+			if calleeID(pc.call) != "crypto/ed25519.Verify" || len(pc.call.Call.Args) != 3 {
+				continue
+			}
+			// arguments derive from the three parameters, in order
+			okArgs := true
+			for k, a := range pc.call.Call.Args {
+				_, leaves := provenance(p, a, pc.at)
+				dep := false
+				for _, l := range leaves {
+					if paramIndex(fn, l) == k {
+						dep = true
+					}
+				}
+				if !dep {
+					okArgs = false
+				}
+			}
+			if !okArgs {
+				continue
+			}
+			if strip(rv) == ssa.Value(pc.call) {
+				verified = true // the answer is the verdict itself
+			}
+			if v, known := boolOnPath(p, pc.call); known && v {
+				verified = true
+			}
+		}
+		if !verified {
+			fs.add("computed", "VerifySignature can answer true on a path where ed25519.Verify was not applied to this call's key, data and signature with a true result: a verdict taken from anywhere else accepts bytes that were never signed", p.Exit(), p)
+		}
+	})
+	if ok {
+		fs.report(c, rule, name, []string{"computed"}, P.Pos(fn.Pos()), fmt.Sprintf("holds on all %d paths that may answer true", trues))
+		c.Floor(rule, "paths of VerifySignature that may answer true", trues, 1)
 	}
 }
